@@ -179,10 +179,20 @@ def _module(prog, rep, modname):
     if ret is not None and isinstance(ret.value, ast.Tuple) and len(ret.value.elts) == 3:
         null_ret = norm(ret.value.elts[2])
         rep.ob('P.returns-pvals-adj-null', f, ret, norm(ret.value.elts[1]) == 'adj', 'must return (pvals, adj, null)')
-    pv = [s for s in stmts if isinstance(s, ast.Assign) and m.match(s, 'pvals[$I] = np.size(np.where($NULL >= sz_links[$I])) / $K') is not None]
+    # the count of null values >= size (null is a vector): np.size(np.where(c)), np.count_nonzero(c) (canonical for flatnonzero(c).size), np.sum(c)
+    PV = ('pvals[$I] = np.size(np.where($NULL >= sz_links[$I])) / $K', 'pvals[$I] = np.count_nonzero($NULL >= sz_links[$I]) / $K',
+          'pvals[$I] = np.sum($NULL >= sz_links[$I]) / $K')
+
+    def pvm(s):
+        for t in PV:
+            b_ = m.match(s, t)
+            if b_ is not None:
+                return b_
+        return None
+    pv = [s for s in stmts if isinstance(s, ast.Assign) and pvm(s) is not None]
     alt = [s for s in stmts if isinstance(s, ast.Assign) and isinstance(s.targets[0], ast.Subscript) and norm(s.targets[0].value) == 'pvals']
     if pv:
-        b = m.match(pv[0], 'pvals[$I] = np.size(np.where($NULL >= sz_links[$I])) / $K')
+        b = pvm(pv[0])
         rd = norm(b['NULL'])
         rep.ob('P.pvalue-reads-the-returned-null', f, pv[0], rd == null_ret,
                'p-values are computed from `%s` but the array returned as the null distribution is `%s`: the reported p-values are unrelated to the reported null' % (rd, null_ret))
@@ -216,6 +226,37 @@ def _module(prog, rep, modname):
     rep.ob('F.permutation-scheme', f, '; '.join(sorted(perm)), sorted(perm) == wantp,
            'unpaired: permute subject columns across both groups; paired: flip the sign of each subject pair', line=f.node.lineno)
     feats['perm'] = sorted(perm)
+    # the group matrices and the group sizes stay paired: xmat has nx columns, ymat ny, and whatever reaches the place where the
+    # pooled data are built (or handed to the permutation worker) is still that allocation -- a later swap / rebinding of the
+    # matrices (or of tail) without the sizes makes the split `d[:, :nx] | d[:, -ny:]` cut the pooled columns at the wrong place
+    cfgf = CFG(f.node)
+    fstm = [x for x in ast.walk(f.node) if isinstance(x, ast.stmt)]
+    def pools(x):
+        for c in ast.walk(x):
+            elts = c.elts if isinstance(c, (ast.Tuple, ast.List)) else c.args if isinstance(c, ast.Call) else None
+            if elts is not None and {'xmat', 'ymat'} <= {e.id for e in elts if isinstance(e, ast.Name)}:
+                return True
+        return False
+    uses = [x for x in fstm if isinstance(x, (ast.Assign, ast.Expr, ast.Return)) and pools(x)
+            and not (isinstance(x, ast.Assign) and isinstance(x.targets[0], ast.Tuple) and {'xmat', 'ymat'} <= {getattr(e, 'id', None) for e in x.targets[0].elts})]
+    for var, size in (('xmat', 'nx'), ('ymat', 'ny')):
+        bad = []
+        n_sites = 0
+        for u_ in uses:
+            if var != 'tail' and var not in {n.id for n in ast.walk(u_) if isinstance(n, ast.Name)}:
+                continue
+            n_sites += 1
+            for d_ in cfgf.reaching_defs(var, u_):
+                if d_ == 'ENTRY':
+                    if var != 'tail':
+                        bad.append('no definition')
+                    continue
+                okd = var != 'tail' and isinstance(d_, ast.Assign) and m.match(d_.value, 'np.zeros(($M, %s))' % size) is not None
+                if not okd:
+                    bad.append(norm(d_).split('\n')[0][:70])
+        rep.ob('G.group-data-and-sizes-stay-paired', f, '%s at %d pooling / hand-over sites' % (var, n_sites), not bad and (n_sites > 0 or var == 'tail'),
+               '`%s` is rebound after the group sizes were fixed (%s): the permuted data are then split into groups of the wrong sizes / tested in another tail than '
+               'the observed data' % (var, '; '.join(sorted(set(bad)))), line=f.node.lineno)
     return feats
 
 
@@ -233,6 +274,8 @@ def variants(root):
         B('p-value from another array', 'np.size(np.where(%s >= sz_links[i])) / k' % nullname, 'np.size(np.where(sz_links >= sz_links[i])) / k', 'P.')
         B('p-value divisor', 'np.size(np.where(%s >= sz_links[i])) / k' % nullname, 'np.size(np.where(%s >= sz_links[i])) / (k + 1)' % nullname, 'P.')
         B('pooled variance dof', '/ (n1 + n2 - 2))', '/ (n1 + n2))', 'T.')
+        B('left tail rewritten as swapped groups without swapping the sizes', "    # perform t-test at each edge\n", "    if tail == 'left':\n        xmat, ymat = ymat, xmat\n        tail = 'right'\n    # perform t-test at each edge\n", 'G.group-data')
+        N('tail spelled in lower case first', "    # perform t-test at each edge\n", "    tail = tail.lower()\n    # perform t-test at each edge\n")
         B('population variance', 'np.var(x, ddof=1)', 'np.var(x)', 'T.')
         B('standard error term', 'denom = s * np.sqrt(1 / n1 + 1 / n2)', 'denom = s * np.sqrt(1 / (n1 + n2))', 'T.')
         B('left tail not negated', "    if tail == 'left':\n        return -t / denom", "    if tail == 'left':\n        return t / denom", 'T.')
